@@ -93,6 +93,7 @@ def render(bs):
 class RefAL:
     def __init__(self, isz, count=None):
         self.isz, self.count, self.items = isz, count, []   # count = static capacity in items, None = dynamic
+        self.cs = None                                      # last current_size the implementation reported
 
     def nec(self, idx):
         """(error name | None, necessary size)"""
@@ -162,6 +163,7 @@ def _al_state(L, k, r, op):
     if w is None or not w.startswith(f"W cs l{k} "):
         raise Bad(f"{op}: missing current_size line, got `{w}`")
     cs = int(w.split()[3])
+    r.cs = cs
     if cs < len(r.items) * r.isz:
         raise Bad(f"{op}: length*item_size {len(r.items) * r.isz} exceeds current_size {cs}")
     if r.count is not None:
@@ -200,6 +202,26 @@ def oracle_al(t, als, L, op):
             raise Bad(f"{op}: missing allocator balance line, got `{g}`")
         if ENFORCE_BALANCE and g != "P live=0":
             raise Bad(f"{op}: allocator balance: {g[7:]} block(s) acquired by the lists are still live after every list was cleaned up")
+        return
+    if name == "fcap":
+        cs, isz = parse_size(t[1]), parse_size(t[2])
+        if skipped(isz == 0):
+            return
+        _expect(L, f"P cap={cs // isz}", f"{op}: aws_array_list_capacity")
+        return
+    if name == "fvalid":
+        ln, cs, isz, dn = parse_size(t[1]), parse_size(t[2]), parse_size(t[3]), t[4] == "1"
+        v = ln * isz <= MAXS and cs >= ln * isz and ((cs == 0) == dn) and isz != 0
+        _expect(L, f"P valid {1 if v else 0}", f"{op}: aws_array_list_is_valid")
+        return
+    if name == "init_full":
+        k, n, isz, k0 = int(t[1][1:]), parse_size(t[2]), parse_size(t[3]), parse_size(t[4])
+        if skipped(isz == 0 or n == 0 or n * isz > LIMIT or k0 > LIMIT):
+            return
+        als[k] = RefAL(isz, n)
+        als[k].items = [val(k0 + i, isz) for i in range(n)]
+        _expect(L, "P rc=OK", op)
+        _al_state(L, k, als[k], op)
         return
     if name in ("init_dyn", "init_static"):
         k, n, isz = int(t[1][1:]), parse_size(t[2]), parse_size(t[3])
@@ -245,9 +267,17 @@ def oracle_al(t, als, L, op):
         return
     k = int(t[1][1:])
     r = als[k]
-    if name == "clean":
+    if name in ("clean", "clean_secure"):
         als[k] = None
         _expect(L, "P rc=OK", op)
+        _expect(L, "P zeroed 1", f"{op}: the list structure must be zeroed")
+        if name == "clean_secure" and not L.permissive:
+            g = L.next()
+            if r is not None and r.count is not None:
+                if g is None or not g.startswith("W raw "):
+                    raise Bad(f"{op}: missing raw-storage line, got `{g}`")
+            elif g not in ("P secure ok", "P secure none") or (g == "P secure none" and r is not None and r.cs):
+                raise Bad(f"{op}: dynamic storage must be zeroed over its whole current_size before it is released, got `{g}`")
         return
     if r is None:
         if not skipped(True):
@@ -337,14 +367,31 @@ def oracle_al(t, als, L, op):
                 raise Bad(f"{op}: missing value line, got `{g}`")
             _match_elem(g[6:], r.items[idx], f"{op} (element {idx})")
         return
+    elif name == "valid":
+        _expect(L, "P valid 1", f"{op}: aws_array_list_is_valid of a list the API produced")
+        return
+    elif name == "get_ptr":
+        idx = parse_size(t[2])
+        if idx >= n:
+            _expect(L, "P rc=AWS_ERROR_INVALID_INDEX", op)
+            return
+        _expect(L, "P rc=OK", op)
+        _expect(L, f"P off={idx * r.isz}", f"{op}: element address")
+        g = L.next()
+        if not L.permissive:
+            if g is None or not g.startswith("P val "):
+                raise Bad(f"{op}: missing value line, got `{g}`")
+            _match_elem(g[6:], r.items[idx], f"{op} (element {idx})")
+        return
     elif name == "dump":
         _expect(L, f"P len l{k} {n}", f"{op}: length")
         w = L.next()
         if w is None or not w.startswith(f"W cap l{k} "):
             raise Bad(f"{op}: missing capacity line, got `{w}`")
         cap = int(w.split()[3])
-        if cap < n or (r.count is not None and cap != r.count):
-            raise Bad(f"{op}: capacity {cap} inconsistent with length {n} / static item count {r.count}")
+        if cap < n or (r.count is not None and cap != r.count) or (r.cs is not None and cap != r.cs // r.isz):
+            raise Bad(f"{op}: capacity {cap} inconsistent with length {n} / static item count {r.count} / "
+                      f"current_size {r.cs} div item_size {r.isz}")
         for i in range(n):
             g = L.next()
             if g is None or not g.startswith(f"P e {i} "):
@@ -416,6 +463,8 @@ def _ll_state(L, r, op):
             _expect(L, f"P fwd L{j}{names}", f"{op}: forward walk of L{j}")
             names = "".join(" " + _nm(k) for k in reversed(r.lists[j]))
             _expect(L, f"P rev L{j}{names}", f"{op}: backward walk of L{j} (mirror of the forward walk)")
+            _expect(L, f"P valid L{j} 1 1 0 0", f"{op}: aws_linked_list_is_valid / is_valid_deep of L{j}, node_is_in_list of its sentinels")
+    _expect(L, "P inl " + "".join("0" if w is None else "1" for w in r.where), f"{op}: aws_linked_list_node_is_in_list of n0..n{NNODES - 1}")
     for k in range(NNODES):
         if r.where[k] is None:
             _expect(L, f"P det n{k} null null", f"{op}: detached node n{k} must have both links NULL")
@@ -501,6 +550,33 @@ def oracle_ll(t, r, L, op):
         r.lists[r.where[k]].remove(k)
         r.where[k] = None
         _expect(L, "P ok", op)
+    elif name in ("begin", "end", "rbegin", "rend"):
+        j = int(t[1][1:])
+        if skip_if(r.lists[j] is None):
+            return
+        l = r.lists[j]
+        w = {"begin": _nm(l[0]) if l else f"L{j}.t", "end": f"L{j}.t", "rbegin": _nm(l[-1]) if l else f"L{j}.h", "rend": f"L{j}.h"}[name]
+        _expect(L, f"P {name} {w}", op)
+        return
+    elif name == "fvalid":
+        j = int(t[1][1:])
+        if skip_if(r.lists[j] is None):
+            return
+        _expect(L, "P fvalid 0", f"{op}: aws_linked_list_is_valid must reject a corrupted sentinel")
+        return
+    elif name == "fdeep":
+        j, k = int(t[1][1:]), int(t[2][1:])
+        if skip_if(r.lists[j] is None or r.where[k] != j):
+            return
+        _expect(L, "P fdeep 0", f"{op}: aws_linked_list_is_valid_deep must reject a one-directional edge")
+        return
+    elif name == "probe":
+        k = int(t[1][1:])
+        if skip_if(r.where[k] is not None):
+            return
+        both = t[2] == t[3] == f"n{k}"
+        _expect(L, "P probe 1 1 1" if both else "P probe 0 0 0", f"{op}: node_next/prev_is_valid, node_is_in_list of a node that is in no list")
+        return
     elif name in ("empty", "front", "back"):
         j = int(t[1][1:])
         if skip_if(r.lists[j] is None or (L.debug and name != "empty" and not r.lists[j])):
@@ -625,7 +701,9 @@ def gen_al_case(rng, maxops, debug=False):
     s = _Sink(debug)
     if True:
         def init(k, size):
-            if rng.random() < 0.3:
+            if rng.random() < 0.12:
+                _sim_al(s, f"al init_full l{k} {rng.choice([1, 2, 3, 4, 6, 10])} {size} {rng.randint(0, 40)}")
+            elif rng.random() < 0.3:
                 _sim_al(s, f"al init_static l{k} {rng.choice([1, 2, 3, 4, 6, 10])} {size}")
             else:
                 _sim_al(s, f"al init_dyn l{k} {rng.choice([0, 0, 1, 2, 3, 5, 8])} {size}")
@@ -637,7 +715,8 @@ def gen_al_case(rng, maxops, debug=False):
                 init(2, rng.choice([isz, rng.choice(ISZ_BOUNDARY)])); nl = 3
         W = [("push_back", 20), ("push_front", 8), ("set", 10), ("get", 5), ("pop_back", 5), ("pop_front", 5), ("pop_front_n", 5),
              ("erase", 8), ("swap", 9), ("sort", 3), ("clear", 1), ("shrink", 3), ("copy", 4), ("swapc", 3), ("ensure", 2),
-             ("calc", 2), ("front", 2), ("back", 2), ("dump", 14), ("forged", 2), ("reinit", 1)]
+             ("calc", 2), ("front", 2), ("back", 2), ("dump", 14), ("forged", 2), ("reinit", 1), ("get_ptr", 3), ("valid", 2),
+             ("fvalid", 2), ("clean_secure", 1)]
         names, weights = [w[0] for w in W], [w[1] for w in W]
         for _ in range(rng.randint(10, maxops)):
             k = rng.randrange(nl) if rng.random() < 0.35 else 0
@@ -651,7 +730,16 @@ def gen_al_case(rng, maxops, debug=False):
                 _sim_al(s, f"al {op} l{k} {s.fresh()}")
             elif op == "set":
                 _sim_al(s, f"al set l{k} {_idx(rng, n, r.isz)} {s.fresh()}")
-            elif op in ("get", "erase", "ensure", "calc"):
+            elif op == "fvalid":
+                ln = rng.choice([0, 1, n, 7, MAXS // r.isz, MAXS // r.isz + 1, MAXS])
+                need = ln * r.isz
+                cs = rng.choice([0, need, need + 1, max(need - 1, 0), need + r.isz, MAXS]) if need <= MAXS else rng.choice([0, MAXS, need % (MAXS + 1)])
+                _sim_al(s, f"al fvalid {min(ln, MAXS)} {min(cs, MAXS)} {rng.choice([r.isz, r.isz, 0, 1])} {rng.choice([0, 0, 1])}")
+                if rng.random() < 0.5:
+                    _sim_al(s, f"al fcap {rng.choice([0, 1, r.isz - 1, r.isz, r.isz + 1, 2 * r.isz - 1, 7 * r.isz + 3, MAXS])} {r.isz}")
+            elif op == "clean_secure":
+                _sim_al(s, f"al clean_secure l{k}")
+            elif op in ("get", "erase", "ensure", "calc", "get_ptr"):
                 _sim_al(s, f"al {op} l{k} {_idx(rng, n, r.isz)}")
             elif op == "pop_front_n":
                 m = rng.choice([0, 1, 2, max(n - 1, 0), n, n + 1, "MAX"]) if rng.random() < 0.7 else rng.randint(0, n + 1)
@@ -675,7 +763,7 @@ def gen_al_case(rng, maxops, debug=False):
                 init(k, r.isz)
             else:
                 _sim_al(s, f"al {op} l{k}")
-            if op not in ("dump", "get", "front", "back", "calc") and rng.random() < (0.5 if isz <= 64 else 0.3):
+            if op not in ("dump", "get", "front", "back", "calc", "get_ptr", "valid", "fvalid", "clean_secure") and rng.random() < (0.5 if isz <= 64 else 0.3):
                 s.ops.append(f"al dump l{k}")
         for k in range(nl):
             s.ops.append(f"al dump l{k}")
@@ -700,7 +788,7 @@ def gen_ll_case(rng, maxops, debug=False):
         _sim_ll(s, f"ll init L{j}")
     r = s.ll
     W = [("push_back", 14), ("push_front", 10), ("pop_back", 5), ("pop_front", 5), ("insert_before", 8), ("insert_after", 8),
-         ("remove", 8), ("swap_nodes", 14), ("swapc", 5), ("move_back", 5), ("move_front", 5), ("obs", 8), ("bad", 2), ("init", 1)]
+         ("remove", 8), ("swap_nodes", 14), ("swapc", 5), ("move_back", 5), ("move_front", 5), ("obs", 10), ("bad", 2), ("init", 1), ("probe", 3), ("forge", 3)]
     names, weights = [w[0] for w in W], [w[1] for w in W]
     for _ in range(rng.randint(10, maxops)):
         op = rng.choices(names, weights)[0]
@@ -742,12 +830,23 @@ def gen_ll_case(rng, maxops, debug=False):
             o = rng.randrange(nl)
             _sim_ll(s, f"ll {op} L{j} L{o}")
         elif op == "obs":
-            x = rng.choice(["empty", "front", "back", "next", "prev"])
+            x = rng.choice(["empty", "front", "back", "next", "prev", "begin", "end", "rbegin", "rend"])
             if x in ("next", "prev"):
                 ref = f"n{rng.choice(inl)}" if inl and rng.random() < 0.7 else f"L{j}." + rng.choice("ht")
                 _sim_ll(s, f"ll {x} {ref}")
             else:
                 _sim_ll(s, f"ll {x} L{j}")
+        elif op == "probe":
+            if det:
+                k = rng.choice(det)
+                pool = ["null", f"n{k}", f"L{j}.h", f"L{j}.t"] + [f"n{m}" for m in inl[:3]] + [f"n{m}" for m in det[:2]]
+                a, b = (f"n{k}", f"n{k}") if rng.random() < 0.15 else (rng.choice(pool), rng.choice(pool))
+                _sim_ll(s, f"ll probe n{k} {a} {b}")
+        elif op == "forge":
+            if rng.random() < 0.5 or not r.lists[j]:
+                _sim_ll(s, f"ll fvalid L{j} {rng.choice(['hn', 'hp', 'tp', 'tn'])}")
+            else:
+                _sim_ll(s, f"ll fdeep L{j} n{rng.choice(r.lists[j])}")
         elif op == "bad":
             # precondition violations: both sides must skip identically
             _sim_ll(s, rng.choice([f"ll remove n{rng.randrange(NNODES)}", f"ll push_back L{j} n{rng.randrange(NNODES)}",
@@ -969,7 +1068,7 @@ def replay(ctx, r):
         core.correspondence_stage(ctx, [Case(r["debug_ops"], r.get("tags"))], exe)
 
 
-MUTATING = ("push", "pop", "set", "erase", "swap", "sort", "clear", "shrink", "copy", "insert", "remove", "move")
+MUTATING = ("push", "pop", "set", "erase", "swap", "sort", "clear", "shrink", "copy", "insert", "remove", "move", "init_full")
 
 
 def nontrivial(case):
